@@ -675,7 +675,8 @@ func (c *client) handlePrepare(raw *frame.RawFrame, msg *message.Prepare, body *
 					} else {
 						id := md5.Sum([]byte(msg.Query + keyspace))
 						c.send(hdr, &message.PreparedResult{
-							PreparedQueryId: id[:],
+							PreparedQueryId:  id[:],
+							ResultMetadataId: id[:], // Required by protocol versions with result metadata IDs (v5, DSEv2)
 							ResultMetadata: &message.RowsMetadata{
 								ColumnCount: int32(len(columns)),
 								Columns:     columns,
@@ -690,7 +691,8 @@ func (c *client) handlePrepare(raw *frame.RawFrame, msg *message.Prepare, body *
 				id := md5.Sum([]byte(msg.Query))
 				c.preparedSystemQuery[id] = stmt
 				c.send(hdr, &message.PreparedResult{
-					PreparedQueryId: id[:],
+					PreparedQueryId:  id[:],
+					ResultMetadataId: id[:], // Required by protocol versions with result metadata IDs (v5, DSEv2)
 				})
 			default:
 				c.send(hdr, &message.ServerError{ErrorMessage: "Proxy attempted to intercept an unhandled query"})
